@@ -161,7 +161,7 @@ class Check:
             global _JOBS
             _JOBS = self.jobs
             ctx = multiprocessing.get_context("fork")
-            with ctx.Pool(n, maxtasksperchild=8) as pool:
+            with ctx.Pool(n, maxtasksperchild=1) as pool:   # one fork per obligation: solver state never leaks between obligations
                 self.results = pool.map(_run_idx, range(len(self.jobs)), chunksize=1)
         return self.results
 
